@@ -358,12 +358,14 @@ def run(ctx):
         if c.get('file') and c.get('expected') is None and 'snap' in r:
             continue
         failures.extend(oracle(c, r))
-    # three-way correspondence inside Coq on the first ncoq_total documents
+    # three-way correspondence inside Coq: the first ncoq_total generated documents and the small shipped files
+    allc = cases + shipped
+    coq_ids = list(range(ncoq_total)) + [len(cases) + k for k, c in enumerate(shipped) if len(c['xml']) < 8000]
     terms, idx, tables = [], [], []
-    for i in range(ncoq_total):
+    for i in coq_ids:
         if 'snap' not in results[i]:
             continue
-        t, table = coq_case(cases[i]['xml'].encode('utf-8'), results[i]['snap'])
+        t, table = coq_case(allc[i]['xml'].encode('utf-8'), results[i]['snap'])
         terms.append(t)
         idx.append(i)
         tables.append(table)
@@ -373,8 +375,8 @@ def run(ctx):
     for j in bad[:10]:
         i = idx[j]
         diag = core.coq_eval_term(ctx, HEADER, 'C05.diagnose %s' % terms[j])
-        own = oracle(cases[i], results[i])
-        mismatches.append({'case_index': i, 'input': {'xml': cases[i]['xml'], 'desc': cases[i]['desc']},
+        own = oracle(allc[i], results[i]) if (allc[i].get('desc') or allc[i].get('expected')) else []
+        mismatches.append({'case_index': i, 'input': {'xml': allc[i]['xml'], 'desc': allc[i].get('desc'), 'file': allc[i].get('file')},
                            'diagnose(model code, model path, spec code, spec path)': diag[-400:],
                            'interning': tables[j], 'explained_by_known': False, 'direct_oracle': [f['signature'] for f in own]})
     seen = set()
@@ -384,16 +386,18 @@ def run(ctx):
             seen.add(core.canon_hash(c['xml']))
     corr = {
         'evaluations': len(terms),
-        'distinct_nontrivial': len({core.canon_hash(cases[i]['xml']) for i in idx
-                                    if cases[i]['desc']['geometries'] or cases[i]['desc']['scenes']}),
+        'distinct_nontrivial': len({core.canon_hash(allc[i]['xml']) for i in idx
+                                    if allc[i].get('file') or allc[i]['desc']['geometries'] or allc[i]['desc']['scenes']}),
         'rule': 'documents from the independent generator (harness/gen/xmldocs.py); non-trivial = at least one geometry or '
                 'visual scene; distinct = different XML text; every one is loaded by pycollada, the snapshot is compared '
                 'inside Coq with load_doc and read_doc evaluated on the xml.etree reading of the same bytes; the direct '
                 'oracle (snapshot vs the generator\'s description) additionally runs on %d more documents and on the '
                 'shipped files (vs an independent etree reading)' % nextra,
-        'samples': [{'xml': cases[i]['xml'][:1500]} for i in idx[ncorpus:ncorpus + 2]],
+        'samples': [{'xml': allc[i]['xml'][:1500]} for i in idx[ncorpus:ncorpus + 2]],
         'distribution': {'features': feature_counts(cases), 'direct_oracle_documents': len(cases),
-                         'shipped_files': [c['file'] for c in shipped], 'corpus_cases': ncorpus,
+                         'shipped_files': [c['file'] for c in shipped],
+                         'shipped_files_in_coq_correspondence': [allc[i]['file'] for i in idx if allc[i].get('file')],
+                         'corpus_cases': ncorpus,
                          'documents_that_failed_to_load': sum(1 for r in results if 'snap' not in r)},
         'mismatches': mismatches,
         'errors': errors,
